@@ -7,6 +7,9 @@ For each synthetic data set the REAL Calculator runs on the original presentatio
   col-perm   static-modulus columns reordered;  col-upper  column names upper-cased
   row-perm   rows of the static table reordered
   vol-rev / vol-shuffle   volume blocks of the phonon file reversed / shuffled: same results OR an error, never different numbers
+  w-normalise   weights divided by their sum (multiplicities vs. normalised weights, Σw = 1)
+  col-both      columns reordered AND re-spelled together (upper case, prefix "C_")
+  phonon-all    q-perm, mode-perm and a weight factor composed in one copy
 Oracle: every reported array (moduli both kinds on both bases, averages, velocities, V(T,P)) agrees to rounding
 (|Δ| <= 1e-8 of the family scale).  The theorems (Properties/C13.lean) carry the algebraic core: permutation / scale
 invariance of the weighted mode average, of the per-mode interpolation loop and of least squares.
@@ -25,7 +28,8 @@ ASSUMPTIONS = [
     "qha and scipy see the re-presented arrays too; their own order-(in)dependence is part of what is observed, not modelled",
 ]
 RTOL = 1e-8
-TRANSFORMS = ["q-perm", "mode-perm", "w-scale", "w-scale-2", "col-perm", "col-upper", "row-perm", "vol-rev", "vol-shuffle"]
+TRANSFORMS = ["q-perm", "mode-perm", "w-scale", "w-scale-2", "col-perm", "col-upper", "row-perm", "vol-rev", "vol-shuffle",
+              "w-normalise", "col-both", "phonon-all"]
 
 
 def transform(ds: synth.DataSet, name: str, rng) -> tuple:
@@ -47,7 +51,14 @@ def transform(ds: synth.DataSet, name: str, rng) -> tuple:
     elif name in ("w-scale", "w-scale-2"):
         # "all positive weight scale factors": ordinary and extreme ones (weights only matter up to a common factor)
         d.weights = d.weights * float(rng.choice([0.25, 16.0, 1.0 / 7.0, 2e-7, 1e-9, 1e6]))
-    elif name == "col-perm":
+    elif name == "w-normalise":
+        d.weights = d.weights / float(numpy.sum(d.weights))
+    elif name == "phonon-all":
+        for sub in ("q-perm", "mode-perm", "w-scale"):
+            d2, _ = transform(d, sub, rng)
+            if d2 is not None: d = d2
+    elif name in ("col-perm", "col-both"):
+        if name == "col-both": kw["upper"] = True; kw["prefix"] = "c_"
         p = rng.permutation(len(d.static_keys))
         d.static_keys = [d.static_keys[i] for i in p]; d.static_table = d.static_table[:, p]
     elif name == "col-upper":
@@ -79,7 +90,7 @@ def write(dirname, ds, kw):
         p = kw["row_perm"]
         e.volumes = ds.volumes[p]; e.static_table = ds.static_table[p]
         if ds.lattice is not None: e.lattice = ds.lattice[p]
-    synth.write_elast(os.path.join(dirname, ds.settings["elast"]["input"]), e, upper=kw.get("upper", False))
+    synth.write_elast(os.path.join(dirname, ds.settings["elast"]["input"]), e, prefix=kw.get("prefix", "c"), upper=kw.get("upper", False))
     path = os.path.join(dirname, "settings.yaml")
     with open(path, "w") as fp:
         yaml.safe_dump(ds.settings, fp)
@@ -174,7 +185,7 @@ def evaluate(case, seed, which=None):
 
 def run(ctx: Ctx) -> Result:
     res = Result()
-    res.rule = ("case = (data set, re-presentation); data sets differ in interpolator/order/shape/system/law; 8 re-presentations each; "
+    res.rule = ("case = (data set, re-presentation); data sets differ in interpolator/order/shape/system/law; 12 re-presentations each; "
                 "non-trivial = the re-presented files differ textually from the original and the calculation ran or was rejected")
     seen = set()
     dist = {t: {} for t in TRANSFORMS}
